@@ -62,7 +62,11 @@ ClassName(kind) ==
       [] kind = "bn"     -> <<"B", "N">>
       [] kind = "act"    -> <<"A", "c", "t">>
       [] kind = "empty"  -> <<"B", "o", "x">>
-HasParams(kind) == kind \in {"linear", "conv", "linsub", "linx", "bn", "colpar", "rowpar"}
+      \* HOMONYMS: classes NAMED "Linear" that are not torch.nn.Linear --
+      \* eligibility is decided by the TYPE, the name only feeds the patterns
+      [] kind = "homact" -> <<"L", "i", "n", "e", "a", "r">>
+      [] kind = "homlin" -> <<"L", "i", "n", "e", "a", "r">>
+HasParams(kind) == kind \in {"linear", "conv", "linsub", "linx", "bn", "colpar", "rowpar", "homlin"}
 Supported(kind) == IF Variant = "gpt" THEN kind \in {"colpar", "rowpar"}
                    ELSE kind \in {"linear", "conv", "linsub", "linx"}
 
